@@ -20,6 +20,11 @@ THEOREMS = [
     "C01.writer_consts_pinned", "C01.digits_parse", "C01.fmt4_parse", "C01.row_roundtrip", "C01.comment_roundtrip", "C01.comment_text_same",
     "C01.header_dropped", "C01.written_lines_are_lines", "C01.table_roundtrip", "C01.comments_roundtrip", "C01.reset_restores",
     # the writer as TRANSLATED from the source on every run (Gen/AlgoWriter.lean)
+    "RefineWriter.get_v_spec", "RefineWriter.to_swc_refines", "RefineWriter.swclike_to_swc_refines",
+    "RefineWriter.to_swc_eq_writeLines", "RefineWriter.swclike_to_swc_eq_writeSwc",
+    "C01.generated_to_swc_spec", "C01.generated_swclike_spec", "C01.generated_lines_eq_model", "C01.generated_writer_eq_model",
+    "C01.generated_row_roundtrip", "C01.generated_table_roundtrip", "C01.generated_comments_roundtrip", "C01.generated_roundtrip_reset",
+    "C01.generated_write_generated_read",
 ]
 TRUSTED = ["hand-written writer/reader text models (Model/SwcText.lean) tied by the c01.roundtrip correspondence; constants pinned via Gen/Consts.lean"]
 ASSUMPTIONS = ["CPython float formatting f'{v:.4f}' (correct rounding of the binary value) and float() parsing; float32 storage after reading",
